@@ -391,6 +391,12 @@ var histBounds = []int64{0, 1000000, 50000000, 1000000000}
 
 const histSpec = "[0,1ms,50ms,1s]"
 
+// bucket lists the parser accepts although they are not ascending (overlapping, empty and repeated
+// intervals): the first matching bucket wins, so the counts are still a function of the multiset of
+// latencies — and must not depend on how the results are split over files. No reference semantics is
+// used for them: the reports over the splits are compared with the report over the unsplit file.
+var oddHistSpecs = []string{"[0,1s,500ms,2s]", "[0,800ms,200ms,1.5s,400ms]", "[0,500ms,500ms,1s,1s,2s]", "[1s,0,2s,100ms]", "[0,10ms,5ms,20ms]"}
+
 func reference(rs []gen.ResultSpec) refMetrics {
 	m := refMetrics{Codes: map[string]int{}, Buckets: map[string]uint64{}}
 	errs := map[string]bool{}
@@ -570,6 +576,7 @@ type cliRun struct {
 	nfile int
 	to    string // forced output encoding (replay)
 	fifo  []bool // forced named-pipe inputs (replay)
+	slow  bool   // every encode op also with its output on a named pipe that is drained slowly
 }
 
 func (cr *cliRun) path(name string) string { return filepath.Join(cr.dir, name) }
@@ -596,7 +603,8 @@ func encodeOp(to, out string, files []string) string {
 }
 
 type pending struct {
-	kind  string // "json", "jsonb" (with buckets), "jsonevery" (intermediate reports), "text", "hist", "histflag" (-buckets flag), "hdrplot", "encode"
+	spec  string // bucket list of the kinds "histx" / "jsonbx" (non-ascending or repeated bounds)
+	kind  string // "histx", "jsonbx" (compared between splits and the unsplit file only), "json", "jsonb" (with buckets), "jsonevery" (intermediate reports), "text", "hist", "histflag" (-buckets flag), "hdrplot", "encode"
 	out   string
 	cc    cliCase
 	base  bool
@@ -632,9 +640,23 @@ func (cr *cliRun) runSet(results []gen.ResultSpec, splits [][][]int, assignments
 			<-fed
 		}
 	}()
+	sinks := map[string]<-chan []byte{}
+	sinkCancel := make(chan struct{})
 	add := func(kind string, cc cliCase, files []string, base bool) {
 		out := cr.path(fmt.Sprintf("out%d", nout))
 		nout++
+		if kind == "encodeslow" {
+			kind = "encode"
+			if ch, err := gen.SlowSink(out, 4096, 300*time.Microsecond, sinkCancel); err == nil {
+				sinks[out] = ch
+				s.Count("cli:encode_to_slow_consumer")
+			}
+		}
+		oddSpec := ""
+		if i := strings.Index(kind, ":"); i >= 0 {
+			k, _ := strconv.Atoi(kind[i+1:])
+			kind, oddSpec = kind[:i], oddHistSpecs[k%len(oddHistSpecs)]
+		}
 		if len(cc.Fifo) == len(files) {
 			files = append([]string{}, files...)
 			for p := range files {
@@ -670,12 +692,16 @@ func (cr *cliRun) runSet(results []gen.ResultSpec, splits [][][]int, assignments
 			ops = append(ops, reportOp("hist"+histSpec, "", out, files))
 		case "histflag":
 			ops = append(ops, reportOp("hist", histSpec, out, files))
+		case "histx":
+			ops = append(ops, reportOp("hist"+oddSpec, "", out, files))
+		case "jsonbx":
+			ops = append(ops, reportOp("json", oddSpec, out, files))
 		case "hdrplot":
 			ops = append(ops, reportOp("hdrplot", "", out, files))
 		case "encode":
 			ops = append(ops, encodeOp(cc.To, out, files))
 		}
-		pend = append(pend, pending{kind, out, cc, base, files})
+		pend = append(pend, pending{oddSpec, kind, out, cc, base, files})
 	}
 	// the unsplit file in each encoding
 	all := make([]int, len(results))
@@ -690,8 +716,15 @@ func (cr *cliRun) runSet(results []gen.ResultSpec, splits [][][]int, assignments
 		cc := cliCase{Results: results, Parts: [][]int{all}, Encs: []string{enc}, To: "json"}
 		add("jsonb", cc, []string{f}, true)
 		add("encode", cc, []string{f}, true)
+		if cr.slow {
+			add("encodeslow", cc, []string{f}, true)
+		}
 		if enc == "gob" && allTypes {
 			add("text", cc, []string{f}, true) // yardstick for the text reports over the splits
+			for k := range oddHistSpecs {
+				add(fmt.Sprintf("histx:%d", k), cc, []string{f}, true)
+				add(fmt.Sprintf("jsonbx:%d", k), cc, []string{f}, true)
+			}
 		}
 	}
 	for si, parts := range splits {
@@ -724,6 +757,9 @@ func (cr *cliRun) runSet(results []gen.ResultSpec, splits [][][]int, assignments
 				add("jsonb", cc, files, false)
 			}
 			add("encode", cc, files, false)
+			if cr.slow {
+				add("encodeslow", cc, files, false)
+			}
 			if ai < 2 || len(cc.Fifo) > 0 {
 				// the same inputs, one or more of them through a named pipe (every position over the runs)
 				fc := cc
@@ -743,6 +779,10 @@ func (cr *cliRun) runSet(results []gen.ResultSpec, splits [][][]int, assignments
 				add("text", cc, files, false)
 				add("hist", cc, files, false)
 				add("histflag", cc, files, false)
+				for k := range oddHistSpecs {
+					add(fmt.Sprintf("histx:%d", k), cc, files, false)
+					add(fmt.Sprintf("jsonbx:%d", k), cc, files, false)
+				}
 				add("hdrplot", cc, files, false)
 				add("jsonevery", cc, files, false)
 			}
@@ -752,6 +792,13 @@ func (cr *cliRun) runSet(results []gen.ResultSpec, splits [][][]int, assignments
 	if err != nil {
 		s.Diverge("cli", "(vegeta-verif failure)", "", err.Error())
 		return
+	}
+	// outputs that went through a slowly drained pipe: store them where the evaluation expects them
+	close(sinkCancel)
+	for path, ch := range sinks {
+		data := <-ch
+		os.Remove(path)
+		os.WriteFile(path, data, 0o644)
 	}
 	if hungAt >= 0 {
 		// the command never returned: the combined decoder never signalled the end (or kept returning records)
@@ -764,6 +811,7 @@ func (cr *cliRun) runSet(results []gen.ResultSpec, splits [][][]int, assignments
 	}
 	var histBase string
 	var textBase *textReport
+	oddBase := map[string]string{}
 	latMin := ref.LatMin
 	if ref.hasZeroLatency {
 		// the unsplit gob file's report is the yardstick for the minimum
@@ -850,6 +898,26 @@ func (cr *cliRun) runSet(results []gen.ResultSpec, splits [][][]int, assignments
 			if bad := tr.diff(ref, textBase); len(bad) > 0 {
 				s.Violate(kit.Violation{Kind: "report_split_text", What: "integer fields of the text report differ from the reference / from the text report over the unsplit file: " + strings.Join(bad, ","),
 					Input: p.cc, Expected: ref.String(), Observed: string(raw), Key: map[string]interface{}{"fields": strings.Join(bad, ",")}})
+			}
+		case "histx", "jsonbx":
+			got := histCounts(raw)
+			if p.kind == "jsonbx" {
+				var doc struct {
+					Buckets  json.RawMessage `json:"buckets"`
+					Requests uint64          `json:"requests"`
+				}
+				if err := json.Unmarshal(raw, &doc); err != nil || doc.Requests != ref.Requests {
+					s.Violate(kit.Violation{Kind: "report_split_metrics", What: "JSON report with a bucket list is unparsable or counts a different number of requests", Input: p.cc, Observed: string(raw)})
+					break
+				}
+				got = string(doc.Buckets)
+			}
+			if p.base {
+				oddBase[p.kind+p.spec] = got
+				s.Count("cli:odd_bucket_list=" + p.spec)
+			} else if want, ok := oddBase[p.kind+p.spec]; ok && got != want {
+				s.Violate(kit.Violation{Kind: "report_split_hist_odd_buckets", What: "bucket counts of a report with the non-ascending bucket list " + p.spec + " differ between the split files and the unsplit file",
+					Input: p.cc, Expected: want, Observed: got, Key: map[string]interface{}{"buckets": p.spec, "type": p.kind}})
 			}
 		case "hist", "histflag":
 			rows := histCounts(raw)
@@ -1225,6 +1293,30 @@ func runC13(c *run.Ctx, s *kit.Summary) {
 		// files: {0,2,4} and {1,3,5}: the large record is the second of the first file
 		cr.runSet(big, [][][]int{{{0, 2, 4}, {1, 3, 5}}, {{1, 3, 5}, {0, 2, 4}}}, func(k int) [][]string { return allAssignments(k) }, true)
 		s.Count("cli:set_with_large_record")
+	}
+	// dedicated sets, every run: long inputs (several hundred to a few thousand small records per file — far
+	// beyond any batch or buffer of 64/128 results), encode also with a consumer that falls behind
+	for _, n := range []int{c.N(450, 900), c.N(1700, 4000)} {
+		set := make([]gen.ResultSpec, n)
+		for i := range set {
+			set[i] = gen.InterResult(r, base+uint64(i), -1)
+			if len(set[i].Body) > 40 {
+				set[i].Body = set[i].Body[:40]
+			}
+		}
+		base += uint64(n) + 7
+		half := [][]int{{}, {}}
+		third := [][]int{{}, {}, {}}
+		for i := 0; i < n; i++ {
+			half[map[bool]int{true: 0, false: 1}[i < n*2/3]] = append(half[map[bool]int{true: 0, false: 1}[i < n*2/3]], i)
+			third[i%3] = append(third[i%3], i)
+		}
+		cr.slow = true
+		cr.runSet(set, [][][]int{half, third}, func(k int) [][]string {
+			return [][]string{allAssignments(k)[0], allAssignments(k)[5%len(allAssignments(k))], allAssignments(k)[len(allAssignments(k))-1]}
+		}, false)
+		cr.slow = false
+		s.Count(fmt.Sprintf("cli:long_set_records>=%d", n/100*100))
 	}
 	// dedicated sets, every run: records in completion order; the record that began first ends last and sits
 	// at the head of the 2nd / 3rd file (it arrives as a new Earliest after other records and also holds End)
